@@ -13,9 +13,15 @@ fn same(a: &[u8], b: &[u8]) -> bool {
 /// All conversions starting from one IRI-reference text (valid per the reference IRI-reference
 /// DFA). `uri_ok` / `uriref_ok`: reference URI / URI-reference verdicts; `has_scheme`.
 pub fn conv_case(t: &[u8], uri_ok: bool, uriref_ok: bool, has_scheme: bool, out: &mut Vec<Violation>) -> u64 {
+	conv_case_for("C13", t, uri_ok, uriref_ok, has_scheme, out)
+}
+
+/// `prop`: the property under which a disagreement is reported (C13 for the conversion laws,
+/// C01 when the conversions are exercised as construction routes).
+pub fn conv_case_for(prop: &'static str, t: &[u8], uri_ok: bool, uriref_ok: bool, has_scheme: bool, out: &mut Vec<Violation>) -> u64 {
 	let input = json!({"text": bytes_json(t)});
 	let mk = |what: &str| {
-		Violation::new("C13", "conversion", what, input.clone())
+		Violation::new(prop, "conversion", what, input.clone())
 			.feat("uri_valid", uri_ok)
 			.feat("uriref_valid", uriref_ok)
 			.feat("has_scheme", has_scheme)
